@@ -10,6 +10,7 @@ package layers
 import (
 	"encoding/binary"
 	"errors"
+	"fmt"
 
 	"github.com/gopacket/gopacket"
 )
@@ -403,6 +404,19 @@ func (d *BFD) DecodeFromBytes(data []byte, df gopacket.DecodeFeedback) error {
 // SerializationBuffer, implementing gopacket.SerializableLayer.
 // See the docs for gopacket.SerializableLayer for more info.
 func (d *BFD) SerializeTo(b gopacket.SerializeBuffer, opts gopacket.SerializeOptions) error {
+	if d.AuthPresent && (d.AuthHeader != nil) {
+		switch d.AuthHeader.AuthType {
+		case BFDAuthTypePassword,
+			BFDAuthTypeKeyedMD5, BFDAuthTypeMeticulousKeyedMD5,
+			BFDAuthTypeKeyedSHA1, BFDAuthTypeMeticulousKeyedSHA1:
+		default:
+			return fmt.Errorf("BFD authentication type %d cannot be serialized", uint8(d.AuthHeader.AuthType))
+		}
+	}
+	if d.Length() > 255 {
+		return fmt.Errorf("BFD packet length %d exceeds the 8 bit length field", d.Length())
+	}
+
 	data, err := b.PrependBytes(bfdMinimumRecordSizeInBytes)
 	if err != nil {
 		return err
